@@ -96,7 +96,7 @@ class Evaluator:
         except Exception as err:
             raise RuntimeError(
                 f"Problem evaluating cell {addr} formula "
-                f"{cell.formula.formula}: {repr(err)}"
+                f"{cell.formula.formula}: {type(err).__name__}: {err}"
             ).with_traceback(sys.exc_info()[2])
 
         # 4. Update the cell value.
